@@ -33,7 +33,7 @@ Inductive dcase :=
 | CPlace (ori : option oct) (pos : option V3) (scale lf : Z) (vs exp : list V3)
   (* show(): copies of a polyline (one vertex list per displayed index, in drawing order) and the path line *)
 | CShow (path : list xpose) (s : selector) (f : Z) (local : list V3)
-        (exp : option (list (list V3))) (exp_path : list V3).
+        (exp : option (list (list V3))) (exp_path : option (list V3)).
 
 Definition frames_eqb (a b : list oct * list V3 * list Z) : bool :=
   let '(r1, p1, i1) := a in let '(r2, p2, i2) := b in
@@ -47,7 +47,10 @@ Definition check_dcase (c : dcase) : bool :=
       dlist_eqb v3eqb (map (place (O := OctOps) ori pos scale lf) vs) exp
   | CShow path s f local exp exp_path =>
       dopt_eqb (dlist_eqb (dlist_eqb v3eqb)) (object_frames (O := OctOps) path s f local) exp
-      && dlist_eqb v3eqb (path_trace (O := OctOps) path f) exp_path
+      && (match exp with
+          | None => true        (* IndexError: show raised, there is no figure *)
+          | Some _ => dopt_eqb (dlist_eqb v3eqb) (path_trace_shown (O := OctOps) path f) exp_path
+          end)
   end.
 
 Fixpoint dfailing_from (i : Z) (cs : list dcase) : list Z :=
